@@ -74,7 +74,9 @@ func judgeURLWithLog(u string, allowed, logURIs map[string]bool) (string, string
 type quoteSpec struct {
 	// Kind: none | empty | garbage | snp | certtable | tdx
 	Kind string `json:"kind"`
-	// Format: snp: tpm snpproto report raw rawreport rawhex rawb64; tdx: raw tpm rawhex
+	// Format: snp: tpm snpproto report raw rawreport rawhex rawb64 rawreporthex rawreportb64; tdx: raw
+	// tpm rawhex rawb64; certtable: "" hex b64. Every binary rendering (raw report with or without
+	// the certificate table, bare table, raw TDX quote) also comes as hex text and as base64 text.
 	Format string `json:"format,omitempty"`
 	MLen   int    `json:"mlen,omitempty"`
 	Seed   int    `json:"seed,omitempty"`
@@ -218,7 +220,7 @@ func renderQuote(q quoteSpec, who string) ([]byte, quoteTruth) {
 		if q.Kind == "certtable" {
 			tr.M = nil // a bare certificate table carries no measurement
 		}
-		if q.Format == "report" || q.Format == "rawreport" {
+		if q.Format == "report" || strings.HasPrefix(q.Format, "rawreport") {
 			tr.Entry = nil // no certificate table in these renderings
 		}
 		if ok {
@@ -247,6 +249,15 @@ func renderQuote(q quoteSpec, who string) ([]byte, quoteTruth) {
 		switch {
 		case q.Kind == "certtable":
 			out = abi.CertsFromProto(at.CertificateChain).Marshal()
+			switch q.Format {
+			case "":
+			case "hex":
+				out = []byte(hex.EncodeToString(out))
+			case "b64":
+				out = []byte(base64.StdEncoding.EncodeToString(out))
+			default:
+				panic("harness: unknown certtable format " + q.Format)
+			}
 		case q.Format == "tpm":
 			out = must(proto.Marshal(&tpmpb.Attestation{TeeAttestation: &tpmpb.Attestation_SevSnpAttestation{SevSnpAttestation: at}}))
 		case q.Format == "snpproto":
@@ -261,6 +272,10 @@ func renderQuote(q quoteSpec, who string) ([]byte, quoteTruth) {
 			out = []byte(hex.EncodeToString(rawOf()))
 		case q.Format == "rawb64":
 			out = []byte(base64.StdEncoding.EncodeToString(rawOf()))
+		case q.Format == "rawreporthex":
+			out = []byte(hex.EncodeToString(rawOf()[:abi.ReportSize]))
+		case q.Format == "rawreportb64":
+			out = []byte(base64.StdEncoding.EncodeToString(rawOf()[:abi.ReportSize]))
 		default:
 			panic("harness: unknown snp format " + q.Format)
 		}
@@ -281,6 +296,8 @@ func renderQuote(q quoteSpec, who string) ([]byte, quoteTruth) {
 			out = raw
 		case "rawhex":
 			out = []byte(hex.EncodeToString(raw))
+		case "rawb64":
+			out = []byte(base64.StdEncoding.EncodeToString(raw))
 		case "tpm":
 			qp, err := tabi.QuoteToProto(raw)
 			if err != nil {
@@ -313,12 +330,12 @@ func validQuote(q quoteSpec) quoteSpec {
 		if !q.Entry {
 			q.Pay = ""
 		}
-		return quoteSpec{Kind: q.Kind, Seed: q.Seed, MLen: fullLength, Entry: q.Entry, Pay: q.Pay}
+		return quoteSpec{Kind: q.Kind, Format: q.Format, Seed: q.Seed, MLen: fullLength, Entry: q.Entry, Pay: q.Pay}
 	case "snp":
 		if q.Format != "tpm" && q.Format != "snpproto" && q.Format != "report" {
 			q.MLen = fullLength
 		}
-		if q.Format == "report" || q.Format == "rawreport" {
+		if q.Format == "report" || strings.HasPrefix(q.Format, "rawreport") {
 			q.Entry = false
 		}
 	case "tdx":
@@ -552,6 +569,10 @@ type outcome struct {
 	urls      []string
 	bodies    [][]byte
 	provCalls int
+	// modified: which quote buffer the extraction wrote into ("" | supplied | provider); repeat: the
+	// outcome of the same call once more on the buffers as the first call left them
+	modified string
+	repeat   *outcome
 }
 
 type cliWriter struct {
@@ -580,16 +601,45 @@ func (m *cliIO) ReadFile(p string) ([]byte, error) {
 }
 
 func runCase(c *srcCase, env *srcEnv) (outcome, quoteTruth, quoteTruth, []byte, []byte) {
-	var o outcome
 	qb, qt := renderQuote(c.Quote, "supplied")
 	var pb []byte
 	var pt quoteTruth
+	if c.Provider == "ok" {
+		pb, pt = renderQuote(c.ProviderQuote, "provider")
+	}
+	loc := env.logLocation(c.Log)
+	// The extractor gets buffers of its own (the renderings are cached and stand for the truth): the
+	// caller's quote buffer is an input, what it holds after the call is observed.
+	own := func(b []byte) []byte {
+		if b == nil {
+			return nil
+		}
+		return append(make([]byte, 0, len(b)), b...)
+	}
+	in, pin := own(qb), own(pb)
+	o := execCase(c, env, loc, in, pin)
+	if o.pan == nil && (!bytes.Equal(in, qb) || !bytes.Equal(pin, pb)) {
+		// Extraction wrote into a quote buffer. A caller that keeps its Options (or a provider that
+		// keeps its quote) now extracts from other bytes: the same call once more shows whether that
+		// matters.
+		o.modified = "supplied"
+		if bytes.Equal(in, qb) {
+			o.modified = "provider"
+		}
+		again := execCase(c, env, loc, in, pin)
+		o.repeat = &again
+	}
+	return o, qt, pt, qb, pb
+}
+
+// execCase runs the extraction of one case once, on the given quote buffers, with fresh doubles.
+func execCase(c *srcCase, env *srcEnv, loc string, qb, pb []byte) outcome {
+	var o outcome
 	var prov *provDouble
 	switch c.Provider {
 	case "fail":
 		prov = &provDouble{fail: true}
 	case "ok":
-		pb, pt = renderQuote(c.ProviderQuote, "provider")
 		prov = &provDouble{quote: pb}
 	}
 	var g *recGetter
@@ -599,7 +649,6 @@ func runCase(c *srcCase, env *srcEnv) (outcome, quoteTruth, quoteTruth, []byte, 
 	case "ok":
 		g = &recGetter{}
 	}
-	loc := env.logLocation(c.Log)
 	if c.CLI {
 		mio := &cliIO{files: map[string][]byte{}, outs: map[string]*cliWriter{}}
 		b := &gcmd.Backend{IO: mio}
@@ -655,7 +704,7 @@ func runCase(c *srcCase, env *srcEnv) (outcome, quoteTruth, quoteTruth, []byte, 
 	if prov != nil {
 		o.provCalls = prov.calls
 	}
-	return o, qt, pt, qb, pb
+	return o
 }
 
 // ---------------------------------------------------------------------------------------------
@@ -858,6 +907,8 @@ type judged struct {
 	// whose: which attestation decides the object when both a supplied quote and a provider's quote
 	// are there: "" (not both) | supplied/other-measurement | supplied/same-measurement | provider-fallback
 	whose string
+	// buffer: what became of the caller's quote buffers: "" (no quote) | untouched | modified-by-extraction/...
+	buffer string
 }
 
 // judge checks I1-I3 on one outcome. It returns the violated clauses in the order I1, panic, I2/I3,
@@ -878,6 +929,29 @@ func judge(c *srcCase, o outcome, qt, pt quoteTruth, qb, pb []byte) (vs []verdic
 			return nil, judged{class: "inconclusive/panic-variable-locator-without-reader"}
 		}
 		return []verdict{{"C16/panic", fmt.Sprintf("extraction panicked: %v%s", o.pan, desc())}}, judged{class: "panic"}
+	}
+	// Deterministic: extraction is a function of its inputs, so it has no business writing into them.
+	// A quote buffer that was written into is judged by what a caller sees: the same call again.
+	if r := o.repeat; r != nil {
+		same := r.pan == nil && (r.err == nil) == (o.err == nil) && bytes.Equal(r.out, o.out) && fmt.Sprint(r.urls) == fmt.Sprint(o.urls)
+		if same {
+			j.buffer = "modified-by-extraction/" + o.modified + "/repeat-call-agrees"
+		} else {
+			j.buffer = "modified-by-extraction/" + o.modified + "/repeat-call-differs"
+			vs = append(vs, verdict{"C16/deterministic/quote-buffer-modified-repeat-call-differs", fmt.Sprintf("extraction wrote into the caller's %s quote buffer, and the same call once more on the same Options gives another outcome: result %q err %v requests %v (panic %v)", o.modified, clip(r.out), r.err, r.urls, r.pan) + desc()})
+		}
+	} else if len(qb) > 0 || len(pb) > 0 {
+		j.buffer = "untouched"
+	}
+	// the attestation's object can be found: the supplied quote carries a full-length measurement
+	// (or, with no supplied quote at all, the provider's does) and the getter works
+	resolvable := c.Getter == "ok" && (fullLen(qt) || (len(qb) == 0 && c.Provider == "ok" && fullLen(pt)))
+	unresolved := func() {
+		who, tr := "supplied", qt
+		if !fullLen(qt) {
+			who, tr = "provider's", pt
+		}
+		vs = append(vs, verdict{"C16/I3/full-length-measurement-not-resolved", fmt.Sprintf("the %s quote (%s) carries a full-length measurement, the getter works and no local evidence was returned, yet extraction failed instead of fetching %s: the object is a function of the measurement, whatever supported format the quote comes in", who, map[bool]string{true: c.Quote.String(), false: c.ProviderQuote.String()}[who == "supplied"], refURL(tr.Tech, tr.M)) + desc()})
 	}
 	// I1
 	allowed := map[string]bool{}
@@ -960,6 +1034,8 @@ func judge(c *srcCase, o outcome, qt, pt quoteTruth, qb, pb []byte) (vs []verdic
 			default:
 				j.class = "force/local-fallback"
 			}
+		} else if resolvable {
+			unresolved()
 		}
 		return vs, j
 	}
@@ -1022,6 +1098,8 @@ func judge(c *srcCase, o outcome, qt, pt quoteTruth, qb, pb []byte) (vs []verdic
 		if !member(o.out, o.bodies) {
 			j.class = "local/other"
 		}
+	} else if resolvable {
+		unresolved()
 	}
 	if lt.laterVar {
 		j.class += "/later-variable-unjudged"
@@ -1056,7 +1134,7 @@ func report(t ev.TB, vs []verdict) bool {
 	return len(vs) > 0
 }
 
-const srcRule = "extract.Endorsement (and, for a third of the cases, the CLI `extract` command through VerifMakeRoot, with Backend.Provider nil when there is no provider) on: event log {absent, missing file, directory, garbage, empty file, valid log} where a valid log holds SP800-155 events with raw / resolvable variable / unresolvable variable / malformed variable / local / URI / unknown-type locators, measured (non-informational) SP800-155 payloads and filler events, each with the GCE firmware manufacturer string, a foreign one or a near miss of the GCE one (prefix, superstring, other case, trailing blank) and sometimes a platform manufacturer string that says the opposite, under manufacturer filter {GCE, any, foreign, a near miss, one no event carries}; supplied quote {none, empty, garbage pool, SEV-SNP as go-tpm-tools wrapper / sevsnp.Attestation / sevsnp.Report / raw report+cert table / raw report / hex / base64, bare cert table, TDX raw / wrapper / hex} with the GCE cert-table entry present or not - a third of the raw payloads, of the variables behind resolvable variable locators and of the cert-table entries in one of the byte shapes of sources/verbatim (trailing / leading / embedded NUL, white space at either end, 0xff, BOM, serialized endorsement ending in 0x00, hex / base64 text, long, drawn bytes) instead of plain text - and measurement lengths {48, 0, 1, 32, 47, 49, 64} where the format can carry them; provider {absent, failing, returning any of those}; getter {absent, failing, recording}; forced fetch on/off; UEFI variable reader configured (real efivarfs reader on a scratch root with a fixed pool of variables) or not (library: nil; CLI: no MakeEfiVariableReader). Oracle: I1 every requested URL is bucket+ovmf_x64_csm/<tech>/<hex>.binarypb of a 48-byte measurement the harness put into the supplied or provider quote, or - only without forced fetch and only when a URI locator is what the log selects (first kind in raw>variable>local>URI that has an event passing the filter, compared by exact equality on the FIRMWARE manufacturer) - one of the selected URI locators (root-cause keys: empty object name, short measurement, eventlog-uri-not-selected, unrelated); I2 without forced fetch, if the log selects a raw locator the result is one of the selected raw payloads, if it selects a variable locator and the first one resolves the result is the payload (file minus 4-byte header) of a selected resolvable variable, else if the supplied quote (or, with no supplied quote, the provider's) carries the GCE cert-table entry BY CONSTRUCTION of the rendering (only for a serialized sevsnp.Attestation with a measurement that is not 48 bytes, which the repository documents it refuses, the repository's own classification decides) the result is that entry (or, when the first variable locator did not resolve, the payload of a later one that does) - and in all these situations the getter log is empty; WHOSE measurement: a supplied quote that carries a full-length measurement is the attestation being resolved (Options.Quote: the provider is used when it is empty), so with such a quote the only measurement-derived URL that may be requested is ITS object, never the object of the provider's measurement (key I1/provider-measurement-fetched-for-supplied-quote), and the provider's cert-table entry is no evidence for it and must not come back as the result (key I2/provider-entry-returned-for-supplied-quote), forced or not, whether or not the supplied quote has an entry of its own; the provider's measurement / entry only count when the supplied quote is absent, empty, unreadable or without a full-length measurement (classes attestation-decided-by:supplied/other-measurement | supplied/same-measurement | provider-fallback); I3 with forced fetch, a working getter and a full-length measurement in the supplied quote (or else the provider's) a success is a body returned by a request of this run; in every other situation a success is a fetched body or one of the local payloads; no panic (a log that selects a variable locator while no reader is configured is counted as inconclusive: totality is C07's). non-trivial = >=2 sources present or forced fetch; distinct = the case"
+const srcRule = "extract.Endorsement (and, for a third of the cases, the CLI `extract` command through VerifMakeRoot, with Backend.Provider nil when there is no provider) on: event log {absent, missing file, directory, garbage, empty file, valid log} where a valid log holds SP800-155 events with raw / resolvable variable / unresolvable variable / malformed variable / local / URI / unknown-type locators, measured (non-informational) SP800-155 payloads and filler events, each with the GCE firmware manufacturer string, a foreign one or a near miss of the GCE one (prefix, superstring, other case, trailing blank) and sometimes a platform manufacturer string that says the opposite, under manufacturer filter {GCE, any, foreign, a near miss, one no event carries}; supplied quote {none, empty, garbage pool, SEV-SNP as go-tpm-tools wrapper / sevsnp.Attestation / sevsnp.Report / raw report+cert table / raw report / bare cert table, TDX raw / wrapper, and EVERY binary rendering (report+table, report, bare table, raw TDX quote) also as hex text and as standard base64 text} with the GCE cert-table entry present or not - a third of the raw payloads, of the variables behind resolvable variable locators and of the cert-table entries in one of the byte shapes of sources/verbatim (trailing / leading / embedded NUL, white space at either end, 0xff, BOM, serialized endorsement ending in 0x00, hex / base64 text, long, drawn bytes) instead of plain text - and measurement lengths {48, 0, 1, 32, 47, 49, 64} where the format can carry them; provider {absent, failing, returning any of those}; getter {absent, failing, recording}; forced fetch on/off; UEFI variable reader configured (real efivarfs reader on a scratch root with a fixed pool of variables) or not (library: nil; CLI: no MakeEfiVariableReader). Oracle: I1 every requested URL is bucket+ovmf_x64_csm/<tech>/<hex>.binarypb of a 48-byte measurement the harness put into the supplied or provider quote, or - only without forced fetch and only when a URI locator is what the log selects (first kind in raw>variable>local>URI that has an event passing the filter, compared by exact equality on the FIRMWARE manufacturer) - one of the selected URI locators (root-cause keys: empty object name, short measurement, eventlog-uri-not-selected, unrelated); I2 without forced fetch, if the log selects a raw locator the result is one of the selected raw payloads, if it selects a variable locator and the first one resolves the result is the payload (file minus 4-byte header) of a selected resolvable variable, else if the supplied quote (or, with no supplied quote, the provider's) carries the GCE cert-table entry BY CONSTRUCTION of the rendering (only for a serialized sevsnp.Attestation with a measurement that is not 48 bytes, which the repository documents it refuses, the repository's own classification decides) the result is that entry (or, when the first variable locator did not resolve, the payload of a later one that does) - and in all these situations the getter log is empty; WHOSE measurement: a supplied quote that carries a full-length measurement is the attestation being resolved (Options.Quote: the provider is used when it is empty), so with such a quote the only measurement-derived URL that may be requested is ITS object, never the object of the provider's measurement (key I1/provider-measurement-fetched-for-supplied-quote), and the provider's cert-table entry is no evidence for it and must not come back as the result (key I2/provider-entry-returned-for-supplied-quote), forced or not, whether or not the supplied quote has an entry of its own; the provider's measurement / entry only count when the supplied quote is absent, empty, unreadable or without a full-length measurement (classes attestation-decided-by:supplied/other-measurement | supplied/same-measurement | provider-fallback); I3 with forced fetch, a working getter and a full-length measurement in the supplied quote (or else the provider's) a success is a body returned by a request of this run; RESOLVABLE (key I3/full-length-measurement-not-resolved): when the getter works and the supplied quote (with no supplied quote at all: the provider's) carries a full-length measurement in any of the supported renderings, extraction does not end in an error when a fetch is forced or no local evidence was returned - the object is a function of the measurement, not of the quote's encoding (classes I3-resolvable/<kind>.<format>); DETERMINISTIC (key deterministic/quote-buffer-modified-repeat-call-differs): every call gets quote buffers of its own, which are compared with the rendering afterwards; if extraction wrote into one, the same call is made once more on the buffers as they were left and has to give the same result, error-ness and requests (classes quote-buffer:untouched | modified-by-extraction/...); in every other situation a success is a fetched body or one of the local payloads; no panic (a log that selects a variable locator while no reader is configured is counted as inconclusive: totality is C07's). non-trivial = >=2 sources present or forced fetch; distinct = the case"
 
 func evalCase(t ev.TB, name string, c *srcCase, env *srcEnv) {
 	o, qt, pt, qb, pb := runCase(c, env)
@@ -1087,6 +1165,12 @@ func evalCase(t ev.TB, name string, c *srcCase, env *srcEnv) {
 			seenPay[p] = true
 			ev.Class(name, "I2-payload/"+p)
 		}
+	}
+	if j.buffer != "" {
+		ev.Class(name, "quote-buffer:"+j.buffer)
+	}
+	if c.Getter == "ok" && fullLen(qt) && (c.Force || j.premise == "") {
+		ev.Class(name, "I3-resolvable/"+c.Quote.Kind+"."+c.Quote.Format)
 	}
 	if j.whose != "" {
 		ev.Class(name, "attestation-decided-by:"+j.whose)
@@ -1128,11 +1212,12 @@ func genQuote(t *rapid.T, label string, allowNone bool) quoteSpec {
 	q := quoteSpec{Kind: rapid.SampledFrom(kinds).Draw(t, label+"Kind"), Seed: rapid.IntRange(0, 5).Draw(t, label+"Seed"), MLen: fullLength}
 	switch q.Kind {
 	case "snp":
-		q.Format = rapid.SampledFrom([]string{"tpm", "snpproto", "raw", "raw", "report", "rawreport", "rawhex", "rawb64"}).Draw(t, label+"Fmt")
+		q.Format = rapid.SampledFrom([]string{"tpm", "snpproto", "raw", "raw", "report", "rawreport", "rawhex", "rawb64", "rawreportb64", "rawreporthex"}).Draw(t, label+"Fmt")
 		q.Entry = rapid.Bool().Draw(t, label+"Entry")
 	case "tdx":
-		q.Format = rapid.SampledFrom([]string{"raw", "tpm", "rawhex"}).Draw(t, label+"Fmt")
+		q.Format = rapid.SampledFrom([]string{"raw", "tpm", "rawb64", "rawhex"}).Draw(t, label+"Fmt")
 	case "certtable":
+		q.Format = rapid.SampledFrom([]string{"", "b64", "hex"}).Draw(t, label+"Fmt")
 		q.Entry = rapid.Bool().Draw(t, label+"Entry")
 	}
 	if q.Entry && rapid.IntRange(0, 2).Draw(t, label+"Shaped") == 0 {
